@@ -183,101 +183,108 @@ func runC05(c *run.Ctx) {
 				fname := fmt.Sprintf("f%d_%d", ti, wi)
 				ft := c05Wrap(tn, w)
 				for vi, cv := range cat {
-					var val interface{}
-					switch w {
-					case "T", "T!":
-						val = cv.v
-					case "[T]":
-						if vi%2 == 0 {
-							val = model.VList{cv.v, nil, cv.v}
-						} else {
-							val = cv.v // a typed slice / scalar where a list is declared
-						}
-					case "[T!]":
-						val = model.VList{cv.v}
-					case "[[T]]":
-						switch vi % 3 {
-						case 0:
-							val = model.VList{model.VList{cv.v}, model.VList{}, nil, model.VList{nil, cv.v}}
-						case 1:
-							val = cv.v // a flat typed slice / scalar where a list of lists is declared
-						default:
-							val = model.VList{cv.v, nil, model.VList{cv.v}} // the value as an INNER list (right for a typed slice of T) next to a proper inner list
-						}
+					// under [[T]] a list-shaped value is tried at every level (as the leaf, as the whole value, as an inner list); other values at one of them
+					places := []int{vi % 3}
+					if _, listShaped := ref.AsList(cv.v); listShaped && w == "[[T]]" {
+						places = []int{0, 1, 2}
 					}
-					if _, innerIsL := ref.AsList(cv.v); bk == "any" && w == "[[T]]" && ((vi%3 == 2 && !innerIsL) || vi%3 == 1) {
-						continue // the same for a non-list standing where an inner list is declared
-					}
-					if _, isL := ref.AsList(val); bk == "any" && !isL && ft.Nullable().List {
-						// AnyResolver.Len has no error channel: what a root resolver answers for a non-list is the
-						// application's business, not ggql's
-						continue
-					}
-					g := &model.Graph{}
-					root := &model.Node{ID: 0, Type: "__root", F: map[string]interface{}{}}
-					q := &model.Node{ID: 1, Type: "Query", F: map[string]interface{}{fname: val}}
-					q.F["obj"] = q
-					root.F["query"] = q
-					g.Root = root
-					g.Nodes = []*model.Node{root, q}
-					h, err := back.Build(bk, s, sdl, g)
-					if err != nil {
-						c.Violation("c05-schema-rejected", map[string]interface{}{"error": err.Error(), "sdl": sdl})
-						return
-					}
-					doc := &model.Doc{Ops: []*model.Op{{Kind: "query", Shorthand: true, Sels: []model.Sel{
-						&model.Field{Name: fname}, &model.Field{Name: "obj", Sels: []model.Sel{&model.Field{Alias: "again", Name: fname}}}}}}}
-					text := doc.Print(model.LayoutN(0))
-					out := Do(h, Request{Text: text}, nil)
-					pairs++
-					c.Eval(fmt.Sprintf("%s|%s|%s|%s", tn, w, cv.name, bk), true)
-					c.Bucket("declared", tn)
-					c.Bucket("wrapper", w)
-					if pairs%977 == 0 {
-						c.Sample(map[string]interface{}{"declared": ft.String(), "value": fmt.Sprintf("%T(%v)", cv.v, cv.v), "backend": bk, "response": out.Describe()})
-					}
-					rep := func(kind, diag string, exp *ref.Result) {
-						m := map[string]interface{}{"backend": bk, "declared": ft.String(), "value": fmt.Sprintf("%s = %T(%v)", cv.name, cv.v, cv.v), "document": text, "diag": diag, "observed": out.Describe()}
-						if exp != nil {
-							m["expected"] = exp.Describe()
-						}
-						c.Violation(kind, m)
-					}
-					if out.Panic != nil {
-						rep("c05-panic", fmt.Sprint(out.Panic), nil)
-						continue
-					}
-					exp := ref.Execute(s, doc, "", nil, g, nil, ref.Flags{})
-					diff := Compare(exp, out, CompareOpts{})
-					explained := ""
-					if diff != "" {
-						// defect models of the open findings: the whole response must equal the prediction
-						for _, fl := range []struct {
-							id string
-							f  ref.Flags
-						}{{"K-C05-frac", ref.Flags{TruncFrac: flags.TruncFrac}}, {"K-C05-num2bool", ref.Flags{Num2Bool: flags.Num2Bool}}, {"K-C05-enum-undeclared", ref.Flags{EnumUndeclared: flags.EnumUndeclared}}} {
-							if fl.f == (ref.Flags{}) {
-								continue
+					for _, place := range places {
+						var val interface{}
+						switch w {
+						case "T", "T!":
+							val = cv.v
+						case "[T]":
+							if vi%2 == 0 {
+								val = model.VList{cv.v, nil, cv.v}
+							} else {
+								val = cv.v // a typed slice / scalar where a list is declared
 							}
-							e2 := ref.Execute(s, doc, "", nil, g, nil, fl.f)
-							if Compare(e2, out, CompareOpts{}) == "" {
-								explained = fl.id
-								break
+						case "[T!]":
+							val = model.VList{cv.v}
+						case "[[T]]":
+							switch place {
+							case 0:
+								val = model.VList{model.VList{cv.v}, model.VList{}, nil, model.VList{nil, cv.v}}
+							case 1:
+								val = cv.v // a flat typed slice / scalar where a list of lists is declared
+							default:
+								val = model.VList{cv.v, nil, model.VList{cv.v}} // the value as an INNER list (right for a typed slice of T) next to a proper inner list
 							}
 						}
-						if explained != "" {
-							c.Known(explained, map[string]interface{}{"declared": ft.String(), "value": fmt.Sprintf("%T(%v)", cv.v, cv.v), "observed": ref.Render(out.Data)})
-						} else {
-							rep("c05-unfaithful", diff, exp)
+						if _, innerIsL := ref.AsList(cv.v); bk == "any" && w == "[[T]]" && ((place == 2 && !innerIsL) || place == 1) {
+							continue // the same for a non-list standing where an inner list is declared
+						}
+						if _, isL := ref.AsList(val); bk == "any" && !isL && ft.Nullable().List {
+							// AnyResolver.Len has no error channel: what a root resolver answers for a non-list is the
+							// application's business, not ggql's
 							continue
 						}
-					}
-					// typed walk (independent of the reference coercion); enum membership is waived only under the open finding
-					if dm, isMap := out.Data.(map[string]interface{}); isMap {
-						if d := typedWalk(s, ft, dm[fname], fname, explained == "K-C05-enum-undeclared"); d != "" {
-							rep("c05-illtyped", d, exp)
+						g := &model.Graph{}
+						root := &model.Node{ID: 0, Type: "__root", F: map[string]interface{}{}}
+						q := &model.Node{ID: 1, Type: "Query", F: map[string]interface{}{fname: val}}
+						q.F["obj"] = q
+						root.F["query"] = q
+						g.Root = root
+						g.Nodes = []*model.Node{root, q}
+						h, err := back.Build(bk, s, sdl, g)
+						if err != nil {
+							c.Violation("c05-schema-rejected", map[string]interface{}{"error": err.Error(), "sdl": sdl})
+							return
 						}
-						c.Count("values_type_checked", 1)
+						doc := &model.Doc{Ops: []*model.Op{{Kind: "query", Shorthand: true, Sels: []model.Sel{
+							&model.Field{Name: fname}, &model.Field{Name: "obj", Sels: []model.Sel{&model.Field{Alias: "again", Name: fname}}}}}}}
+						text := doc.Print(model.LayoutN(0))
+						out := Do(h, Request{Text: text}, nil)
+						pairs++
+						c.Eval(fmt.Sprintf("%s|%s|%s|%s|%d", tn, w, cv.name, bk, place), true)
+						c.Bucket("declared", tn)
+						c.Bucket("wrapper", w)
+						if pairs%977 == 0 {
+							c.Sample(map[string]interface{}{"declared": ft.String(), "value": fmt.Sprintf("%T(%v)", cv.v, cv.v), "backend": bk, "response": out.Describe()})
+						}
+						rep := func(kind, diag string, exp *ref.Result) {
+							m := map[string]interface{}{"backend": bk, "declared": ft.String(), "value": fmt.Sprintf("%s = %T(%v)", cv.name, cv.v, cv.v), "document": text, "diag": diag, "observed": out.Describe()}
+							if exp != nil {
+								m["expected"] = exp.Describe()
+							}
+							c.Violation(kind, m)
+						}
+						if out.Panic != nil {
+							rep("c05-panic", fmt.Sprint(out.Panic), nil)
+							continue
+						}
+						exp := ref.Execute(s, doc, "", nil, g, nil, ref.Flags{})
+						diff := Compare(exp, out, CompareOpts{})
+						explained := ""
+						if diff != "" {
+							// defect models of the open findings: the whole response must equal the prediction
+							for _, fl := range []struct {
+								id string
+								f  ref.Flags
+							}{{"K-C05-frac", ref.Flags{TruncFrac: flags.TruncFrac}}, {"K-C05-num2bool", ref.Flags{Num2Bool: flags.Num2Bool}}, {"K-C05-enum-undeclared", ref.Flags{EnumUndeclared: flags.EnumUndeclared}}} {
+								if fl.f == (ref.Flags{}) {
+									continue
+								}
+								e2 := ref.Execute(s, doc, "", nil, g, nil, fl.f)
+								if Compare(e2, out, CompareOpts{}) == "" {
+									explained = fl.id
+									break
+								}
+							}
+							if explained != "" {
+								c.Known(explained, map[string]interface{}{"declared": ft.String(), "value": fmt.Sprintf("%T(%v)", cv.v, cv.v), "observed": ref.Render(out.Data)})
+							} else {
+								rep("c05-unfaithful", diff, exp)
+								continue
+							}
+						}
+						// typed walk (independent of the reference coercion); enum membership is waived only under the open finding
+						if dm, isMap := out.Data.(map[string]interface{}); isMap {
+							if d := typedWalk(s, ft, dm[fname], fname, explained == "K-C05-enum-undeclared"); d != "" {
+								rep("c05-illtyped", d, exp)
+							}
+							c.Count("values_type_checked", 1)
+						}
 					}
 				}
 			}
